@@ -37,30 +37,47 @@ CFG = {
              "internal representation; non-trivial = two differently represented values were SameAs; "
              "distinct = by hash of the case"),
     "theorem_names": ["om_refines", "om_size_live", "siter_next_some", "siter_next_none", "sdata_positions_stable",
-                      "sdata_keys_unique", "hash_respects_svz", "goja_same_is_svz", "om_refines_js",
-                      "symtab_same_structure", "symtab_ownkeys_order"],
+                      "sdata_keys_unique", "hash_respects_svz", "hash_respects_same", "hash_respects_svz_raw",
+                      "goja_same_is_svz", "om_refines_js", "om_refines_js_raw", "map_iteration_order_js",
+                      "symtab_same_structure", "symtab_ownkeys_order", "hash_respects_refuted_noncanonical",
+                      "hash_respects_refuted_hostwrapper"],
     "candidates": candidates,
     "predicates": {"C18.host_wrapper_hash_by_address": p_h1},
     "allowed_axioms": [],
     "trusted_base": [
         "Coq 8.16.1 kernel + vm_compute (no native_compute); theorems closed under the global context (no axioms)",
         "hand-written Gallina model of map.go (coq/C18/Model.v); hash chains modelled as lists of entry ids, Go map as association list",
-        "correspondence harness harness/cmd/c18 + /repo/verif_hooks.go (VerifOrderedMap, VerifNewImported, VerifRepr)",
+        "hand transcription of Value.SameAs per constructor pair, the map.go key normalisation and the hash(hasher) methods "
+        "(coq/C18/HashModel.v) on top of the C05 number model and the C06 string model (imported, with their theorems)",
+        "correspondence harness harness/cmd/c18 + /repo/verif_hooks.go (VerifOrderedMap, VerifNewImported, VerifRepr, "
+        "VerifSameAs, VerifHashEq)",
         "key classes are identified from exported Go values, independently of goja's own SameValue",
     ],
     "assumptions": [
-        "maphash and Go map[uint64] are modelled as an arbitrary function respecting SameValue and a finite map",
+        "Go map[uint64] is a finite map; maphash (one seed per map) is an ARBITRARY function of the bytes written to it, the four "
+        "package-level hash words and the addresses of Symbols/Objects are arbitrary: section variables, nothing assumed of them",
+        "keys are well-formed: numbers canonical with a valid binary64 payload (C05 canon/wf), strings in normal form (C06 nf), "
+        "objects not wrappers of Go values (for those the hash does not respect SameAs: open finding C18-H1); one NaN "
+        "(floatToValue collapses NaN payloads to _NaN)",
         "the implementation is tied to the model only on the generated histories (correspondence), not by proof",
     ],
     "manifest": {
         "text": ("proof: for every history of Map/Set operations with any number of live iterators, the Gallina transcription of "
                  "map.go (hash chains + linked list with tombstones + back-tracking iterators) is proved to return exactly what the "
                  "specification's append-only [[MapData]] list returns (om_refines), size = number of live entries, keys unique up to "
-                 "SameValueZero, iterator steps skip only empty positions and never revisit (7 theorems, no axioms). The model is tied "
+                 "SameValueZero, iterator steps skip only empty positions and never revisit. The hypotheses of om_refines are proved "
+                 "of goja's REAL key functions on JS values (Value.SameAs per constructor pair, the -0 normalisation, the hash methods "
+                 "over C05 numbers and C06 strings, maphash/addresses arbitrary): hash_respects_svz, SameAs-after-normalisation = "
+                 "ECMAScript SameValueZero (goja_same_is_svz), hence om_refines_js / om_refines_js_raw for every history over well-formed "
+                 "JS values, a drained fresh iterator lists the live entries in insertion order, and the symbol-property table is the "
+                 "same structure (Reflect.ownKeys symbol order). 23 theorems, no axioms. The model is tied "
                  "to /repo on every run by running 3000 (quick) / 120000 (thorough) generated histories through the raw orderedMap, JS "
-                 "Map, JS Set (+Go Export) and symbol-property tables and comparing every returned value with the model evaluated by vm_compute."),
+                 "Map, JS Set (+Go Export) and symbol-property tables and comparing every returned value with the model evaluated by vm_compute; "
+                 "about 1 case in 40 observes, for all ordered pairs of differently produced pool values, SameAs / hash equality of the "
+                 "keys as stored and each value's internal representation, checked against SameValueZero on classes and on denotations, "
+                 "the transcribed SameAs, the representation invariant, same => equal hash, equal hash input => equal hash."),
         "note": ("trusted: Coq kernel + vm_compute; the hand transcription of map.go (coq/C18/Model.v), with hNext chains as id lists and "
-                 "maphash as an arbitrary SameValue-respecting function; the Go harness and the verif_hooks.go accessors; the "
+                 "the transcription of SameAs/hash (coq/C18/HashModel.v) with maphash and addresses arbitrary; the Go harness and the verif_hooks.go accessors; the "
                  "implementation itself is covered by correspondence on generated histories, not by proof"),
         "technique": "Rocq refinement proof (orderedMap model refines [[MapData]] list, invariant by induction over histories) + differential correspondence against /repo via vm_compute",
     },
